@@ -38,7 +38,7 @@ TAGS = {
     "op.end:drop_store": {"C15", "C04", "C13"},
     "op.end:close": {"C04", "C13"},
     "op.end:unsub": {"C09", "C10", "C13"},
-    "op.end:add_sub": {"C09", "C07", "C13"},
+    "op.end:add_sub": {"C09", "C07", "C13", "C16"},      # C16: subscribe_with_selector is an add_sub in its instances
     "op.end:subscribed": {"C10", "C09", "C13"},
     "op.end:iter": {"C14", "C13"},
     "op.end:drop_iter": {"C14", "C13"},
